@@ -44,13 +44,16 @@ class D(Driver):
             try:
                 if kind == "REQ":
                     world.requested.add(op[1])
+                    world.unwanted.discard(op[1])
                     world.cs.smart_sync_path(ROOTS[0] + "/" + op[1], LOCAL)
                 elif kind == "UNREQ":
                     remote_before = world.tree(1).get(op[1])
                     local_before = world.tree(0).get(op[1])
-                    world.cs.smart_unsync_path(ROOTS[0] + "/" + op[1], LOCAL)
+                    ret = world.cs.smart_unsync_path(ROOTS[0] + "/" + op[1], LOCAL)
                     world.requested.discard(op[1])
                     world.unreq.append((op[1], local_before, remote_before))
+                    if ret:
+                        world.unwanted.add(op[1])       # it was wanted (requested or predicate-marked) and is not any more
                 elif kind == "LIST":
                     lst = list(world.cs.smart_listdir_path(ROOTS[0] + ("/" + op[1] if op[1] else "")))
                     world.step_viol.extend(check_listing(world, op[1], lst))
@@ -64,6 +67,7 @@ class D(Driver):
                 world.in_engine = None
             world.app_log.append((op, res))
         w.unreq = []
+        w.unwanted = set()
         w.hooks["actions"] = actions
         w.hooks["action"] = action
         w.hooks["users_done"] = users_done
@@ -74,7 +78,7 @@ class D(Driver):
         if rel in w.requested or rel in w.local_origin:
             return True
         pat = w.opts.get("autosync")
-        if pat and fnmatch.fnmatch(rel.split("/")[-1], pat):
+        if pat and fnmatch.fnmatch(rel.split("/")[-1], pat) and rel not in w.unwanted:
             return True
         # a file the local user created (or renamed) is local-origin
         for side, op, ok in w.user_log:
@@ -87,7 +91,7 @@ class D(Driver):
         for rel, v in w.tree(0).items():
             if v is None or _is_conflicted(rel):
                 continue
-            if not self.allowed_local(w, rel) and not any(rel == u[0] for u in w.unreq):
+            if not self.allowed_local(w, rel) and (rel in w.unwanted and a != "APP" or not any(rel == u[0] for u in w.unreq)):
                 vs.append(viol("downloaded-unrequested", rel, {"local": _show_tree(w.tree(0)), "requested": sorted(w.requested)}))
         for v in w.step_viol:
             vs.append(v)
@@ -179,7 +183,9 @@ def jobs(tier):
     fam += [([["LIST", ""]], [], [["create", "r3"]]), ([["REQ", "r1"], ["LIST", ""]], [], []),
             ([["REQ", "d/r2"], ["LIST", "d"]], [], [["write", "d/r2"]]), ([["UNREQ", "r1"]], [], [["write", "r1"]]),
             ([["LIST", ""]], [["create", "l1"]], [["delete", "r1"]]), ([], [["create", "l1"], ["mkdir", "m"]], [["mkdir", "e"]]),
-            ([["REQ", "r1"], ["UNREQ", "r1"], ["REQ", "r1"]], [], [["write", "r1"]])]
+            ([["REQ", "r1"], ["UNREQ", "r1"], ["REQ", "r1"]], [], [["write", "r1"]]),
+            ([["UNREQ", "n.auto"]], [], []), ([["UNREQ", "n.auto"]], [], [["write", "n.auto"]]),
+            ([["UNREQ", "n.auto"], ["LIST", ""]], [], [])]
     for cfg in cfgs:
         for auto in (None, "*.auto", "*"):
             for app, L, R in fam:
